@@ -77,9 +77,11 @@ pub fn dead_code_elimination(function: &il::Function) -> Result<il::Function, Er
             location
                 .instruction()
                 .map(|instruction| {
-                    !instruction
+                    // only an instruction which is known to write scalars, and
+                    // nothing else, can be dead
+                    instruction
                         .scalars_written()
-                        .map(|scalars_written| scalars_written.is_empty())
+                        .map(|scalars_written| !scalars_written.is_empty())
                         .unwrap_or(false)
                 })
                 .unwrap_or(false)
